@@ -496,7 +496,10 @@ def c10(chk, tier):
 
 
 def c10_kem_level(chk, ses, thorough):
-    pass
+    key = lambda l: ("c10k", l["op"], l["kind"], l["err"], _digest(l["bytes"]))
+    stateless_calls(chk, ses, "MC_Kem", "MC_Kem.cfg", "gen_kem_smallorder",
+                    dict(KemSet="{32}", NIkm="0", SmallOrder="TRUE", Emit="TRUE"), ALL, key,
+                    want=lambda l: l["op"] in ("encap", "decap"), compare_bytes=False)
 
 
 # ------------------------------------------------------------------------------------------- C14
@@ -600,3 +603,44 @@ def c11(chk, tier):
                        "x 3 KDFs x both roles x every interleaving with <=1-2 seals/opens/refusals incl. the latched state "
                        "(raw contexts, exact), and on real setups of both roles for all modes (pattern); export-only suites: "
                        "seal/open panic; distinct = distinct (kdf, aead, call, context, arguments, counter state, outcome)")
+
+
+# ------------------------------------------------------------------------------------------- C03
+def stateless_calls(chk, ses, module, base, name, over, exact_tags, casekey, want=None, **kw):
+    """models whose calls need no state (MC_Kem, MC_Codec): every printed call is one implementation test"""
+    n = [0]
+
+    def on(v):
+        last = v["last"]
+        if want and not want(last):
+            return
+        ses.replay([last], exact_tags=exact_tags, label=name, sample=(n[0] % 97 == 0), **kw)
+        n[0] += 1
+        chk.case(casekey(last))
+    generate(chk, module, base, name, over, invariants=None, on_value=on, workers=2)
+    if n[0] == 0:
+        raise ToolError("no call generated by %s" % name)
+    return n[0]
+
+
+@prop("C03")
+def c03(chk, tier):
+    thorough = tier == "thorough"
+    chk.assumptions += [
+        "exact mode: every returned byte is compared with the oracle's evaluation of the specification's term "
+        "(X25519 private keys up to RFC 7748 clamping); arguments (keys, encapsulated keys) are computed by the oracle",
+        "the rejection branch of the NIST DeriveKeyPair loop (counter >= 1) has probability <= 2^-32 per key and is not "
+        "reached by any generated input: a change confined to that branch is not detectable by conformance"]
+    ses = Session(chk)
+    try:
+        key = lambda l: ("c03", l["op"], l["plain"]["kem"], l["kind"], l["err"], _digest(l["bytes"]))
+        for kem in KEMS:
+            stateless_calls(chk, ses, "MC_Kem", "MC_Kem.cfg", "gen_kem_%d" % kem,
+                            dict(KemSet="{%d}" % kem, NIkm=str(2000 if thorough else 40), SmallOrder="FALSE", Emit="TRUE"),
+                            ALL, key)
+    finally:
+        ses.close()
+    chk.cov["rule"] = ("derive_keypair over ikm length classes {0,1,Nsk-1,Nsk,Nsk+1,64,65,1000} and seeded Nsk-byte values, "
+                       "gen_keypair with 0/1/40 spare RNG bytes, sk_to_pk, encap/decap for all role assignments x "
+                       "{plain, authenticated (matching and non-matching identity pair)} x 4 KEMs; distinct = distinct "
+                       "(call, kem, arguments, outcome)")
